@@ -157,6 +157,8 @@ type World struct {
 	Restarts int
 	// FaultAt > 0 makes the FaultAt-th API call (counted from the last ResetFault) fail without effect.
 	FaultAt    int
+	// FaultFrom > 0 makes every API call from the FaultFrom-th on fail without effect (an outage that starts in mid-operation).
+	FaultFrom int
 	faultCount int
 	// CrashAt > 0: the process dies right before (CrashAfter=false) or right after (true) the CrashAt-th API call.
 	CrashAt      int
@@ -829,7 +831,7 @@ func (w *World) apiCall(verb, res, name string) (err error) {
 			panic(coop.CrashSentinel{Where: "before " + verb + " " + res + " " + name})
 		}
 	}
-	if w.FaultAt > 0 && w.faultCount == w.FaultAt {
+	if (w.FaultAt > 0 && w.faultCount == w.FaultAt) || (w.FaultFrom > 0 && w.faultCount >= w.FaultFrom) {
 		w.APILog = append(w.APILog, "FAULT "+verb+" "+res+" "+name)
 		return apierrors.NewInternalError(fmt.Errorf("injected fault"))
 	}
@@ -854,7 +856,7 @@ func (w *World) cloudLen() int {
 }
 
 // ResetFault restarts the per-operation API call counter used by FaultAt.
-func (w *World) ResetFault(at int) { w.FaultAt, w.faultCount = at, 0 }
+func (w *World) ResetFault(at int) { w.FaultAt, w.FaultFrom, w.faultCount = at, 0, 0 }
 
 // FaultCount returns API calls since the last ResetFault.
 func (w *World) FaultCount() int { return w.faultCount }
